@@ -55,6 +55,28 @@ CLAIMED.update({
                 text="specs/StatefulAuto.tla states the timing contract (expiry only after the state ran, successor starts at the predecessor's expiry, initial_call on first call after entry, silent when finished, dashboard values read at on_enable); TLC checks it exhaustively on chain/loop/branch/single shapes over clock steps {1,2,5}, 2-3 periods, in-state next_state/done and dashboard edits; the pre-fix 'no_ran_guard' deviation is caught; executions of generated StatefulAutonomous subclasses (all 16 signatures) over several periods are validated call by call, and simulated spec behaviours are replayed.",
                 tech="TLA+ spec StatefulAuto + TLC exhaustive invariants/action properties; TLC batch trace validation; simulated behaviours replayed"),
 })
+CLAIMED.update({
+    "C16": dict(cat="model_checking", ref="DESIGN.md 4.9, 5/C16",
+                note="Trusted: TLC; the HAL simulator's notifier alarms and FPGA clock; harness/drivers/nd_driver.py (a wrapper around hal.waitForNotifierAlarm advances simulated time to the armed alarm, read through hal.simulation.getNextNotifierTimeout). Exhaustive runs bounded in number of waits and body durations.",
+                text="specs/NotifierDelay.tla (integers, microseconds): TLC checks alarm-on-grid, k-th wait not before t0+kP and exactly then when on time, catch-up after overruns, free releases the notifier and wait-after-free returns at once, exhaustively over body-duration patterns; a 'drift' mutation is caught. Real NotifierDelay objects (periods 1 ms .. 100 ms) are driven through random and TLC-simulated schedules; FPGA time after each wait(), the armed HAL alarm and the notifier count are validated step by step by TLC.",
+                tech="TLA+ spec NotifierDelay + TLC exhaustive invariants; TLC batch trace validation; simulated behaviours replayed"),
+    "C17": dict(cat="other", ref="DESIGN.md 4.10, 5/C17",
+                note="Trusted: TLC; Python decimal (50 digits) for the datasheet power law A*v^B, which TLA+ cannot express - it enters as a table; AnalogInputSim round-trips doubles exactly. NaN is outside the quantifier.",
+                text="TLC enumerates all 4096 ADC codes x 3 sensor models, special voltages (negative, zero, tiny, floor, over-range, 1e300, +-inf) and 27 simulated distances per model, and checks on the readings of the real drivers: inside the documented range, non-increasing in the voltage, equal (+-1 micro-cm) to Clamp(Law) with Law from the independent decimal table, sim helper inverse. The case structure is specified in TLA+; the power-law constants are tied to the spec only through the trusted table - hence level 'other'.",
+                tech="TLA+ case enumeration by TLC over readings recorded from the real drivers; independent high-precision oracle table for the power law"),
+    "C18": dict(cat="model_checking", ref="DESIGN.md 4.10, 5/C18",
+                note="Trusted: TLC; exact rational arithmetic in specs/Rational.tla; the pulse-width sonar's counter is a stub getPeriod() (no counter simulator in this wpilib); floating-point results are compared with the exact rationals within 1e-9 relative (the property says 'up to floating-point rounding'); voltages below 10 uV are floored by the pressure driver.",
+                text="specs/Units.tla models units as a tree with rational factors; TLC enumerates every ordered triple of 8 units (library units + user-defined chain of depth 4) x 7 values and checks identity, round trip, path independence, homogeneity, additivity and the anchor factors in exact rationals, plus sonar/pressure/calibration formulas over grids; every enumerated case is then run on the real code (convert incl. the laws evaluated on the code, MaxSonar drivers, REV pressure sensor incl. Vcc=0 and non-positive voltages) and compared with TLC's exact expected value.",
+                tech="TLA+ exact-rational model + TLC exhaustive enumeration; every TLC case replayed on the real code"),
+    "C19": dict(cat="model_checking", ref="DESIGN.md 4.9, 5/C19",
+                note="Trusted: TLC; simulated FPGA clock exact on the 1/64 s grid; time.monotonic inside periodic_filter replaced by a fake clock; a stub joystick. Watchdog before its first reset and ButtonDebouncer's initial latest=0 are modelled as implemented.",
+                text="specs/Controls.tla: five small machines on one clock; TLC checks flip-iff-edge, debounce spacing, ButtonDebouncer spacing and firing when due, PeriodicFilter low-level spacing, watchdog print spacing and expiry instant exhaustively over sample sequences with clock steps on both sides of every threshold (mutations caught); real Toggle / ButtonDebouncer / PeriodicFilter / SimpleWatchdog objects are driven by random and TLC-simulated sequences and every return value (and watchdog log records) validated by TLC.",
+                tech="TLA+ spec Controls + TLC exhaustive action properties; TLC batch trace validation; simulated behaviours replayed"),
+    "C20": dict(cat="model_checking", ref="DESIGN.md 4.10, 5/C20",
+                note="Trusted: TLC and the CommunityModules Bitwise operators. The 256-entry table is read from the imported module at run time and is the object TLC reasons about; the loop around it is covered by conformance.",
+                text="Finite-state, hence exhaustive over all messages of all lengths: TLC steps the table-driven machine (table read from the real module) and the bit-serial reference together on every byte from every reachable checksum (Refines), checks table linearity (=> XOR-linearity by induction; explored directly in thorough), zero-step bijectivity, and on the bit-level syndrome machine that single-bit errors, double-bit errors < 127 apart and bursts <= 7 bits are always detected (period exactly 127). The real crc7() is validated on all one-byte messages, one two-byte message per model transition (32768) and random messages.",
+                tech="TLA+ paired-machine refinement checked exhaustively by TLC on the code's own table; TLC trace validation of the real function"),
+})
 
 m = {
     "version": 1,
